@@ -1,6 +1,119 @@
-(* C30 — stub, replaced below *)
+(* C30 — KS0 conformant-to-classical compilation is sound and complete.
+   The translation itself is validated per instance (harness/props/c30.py + Corr/Corr_C30.v); the theorems below are
+   what makes that validation meaningful: the belief-space semantics over the shared sequential semantics
+   [spec_step false], the exhaustiveness of the checkers that Coq runs on the compiler's output, and the soundness of
+   the dominated-state reduction for the literal-level model of _get_relevance_relation /
+   _reduce_possible_initial_states_to_basis.  Only statements; proofs are in Proofs/Belief_proofs.v. *)
 From Coq Require Import List ZArith NArith Bool.
 Import ListNotations.
-Require Import UPV.Model.Belief.
-Theorem C30_stub : True. Proof. exact I. Qed.
-Print Assumptions C30_stub.
+Require Import UPV.Core.Expr UPV.Core.Eval UPV.Core.Interp UPV.Planning.Problem UPV.Planning.Sem.
+Require Import UPV.Model.Belief UPV.Proofs.Belief_proofs.
+
+(* a plan passes the conformance check iff, from EVERY possible initial state, it is executable and ends in a goal
+   state (valid_plan of the shared planning semantics, strict reading) *)
+Theorem C30_conformant_check_correct :
+  forall P inits pi,
+    conformant_check P inits pi = true <-> forall s, In s inits -> valid_plan false P s pi = true.
+Proof. exact conformant_check_correct. Qed.
+Print Assumptions C30_conformant_check_correct.
+
+(* the belief-space search is exhaustive up to its depth: the answer "no" means that no plan over the ground instances
+   of length <= n is conformant (None = a key outside K, excluded) *)
+Theorem C30_exists_conformant_plan_complete :
+  forall K P insts inits n,
+    exists_conformant_plan K P insts inits n = Some false ->
+    forall pi, plan_over insts pi -> length pi <= n -> conformant_check P (map fst_of inits) pi = false.
+Proof. exact exists_conformant_plan_complete. Qed.
+Print Assumptions C30_exists_conformant_plan_complete.
+
+(* soundness validator: when [sound_check] accepts a compiled problem CP with plan-back table [back], every valid plan
+   of CP of length <= n maps back to a plan that is conformant for the original problem P and the possible initial
+   states [inits] *)
+Theorem C30_sound_check_correct :
+  forall KC CP KO P back cacts c0 inits n,
+    sound_check KC CP KO P back cacts c0 inits n = true ->
+    forall pi, plan_over cacts pi -> length pi <= n -> valid_plan false CP (fst_of c0) pi = true ->
+               conformant_check P (map fst_of inits) (map_back back pi) = true.
+Proof. exact sound_check_correct. Qed.
+Print Assumptions C30_sound_check_correct.
+
+(* ... and for plans of EVERY length when the explored product graph is closed *)
+Theorem C30_sound_check_closed_correct :
+  forall KC CP KO P back cacts c0 inits n,
+    sound_check_closed KC CP KO P back cacts c0 inits n = true ->
+    forall pi, plan_over cacts pi -> valid_plan false CP (fst_of c0) pi = true ->
+               conformant_check P (map fst_of inits) (map_back back pi) = true.
+Proof. exact sound_check_closed_correct. Qed.
+Print Assumptions C30_sound_check_closed_correct.
+
+(* completeness validator, negative side: "the compiled problem is unsolvable" is exact *)
+Theorem C30_unsolvable_closed_correct :
+  forall K P acts c0 n,
+    unsolvable_closed K P acts c0 n = true ->
+    forall pi, plan_over acts pi -> valid_plan false P (fst_of c0) pi = false.
+Proof. exact unsolvable_closed_correct. Qed.
+Print Assumptions C30_unsolvable_closed_correct.
+
+(* the relation computed by the model of _get_relevance_relation is reflexive, contains "condition -> target" for
+   every effect rule, is transitive and closed under the complement rule (None = out of fuel, excluded) *)
+Theorem C30_relevance_ok :
+  forall NP fuel R, relevance NP fuel = Some R -> rel_ok NP R.
+Proof. exact relevance_ok. Qed.
+Print Assumptions C30_relevance_ok.
+
+(* basis reduction: for the model of _reduce_possible_initial_states_to_basis, a plan is conformant for the kept
+   states iff it is conformant for all possible initial states — so dropping dominated states changes neither
+   "this (mapped-back) plan is conformant" nor "a conformant plan exists" *)
+Theorem C30_basis_reduction_sound :
+  forall NP fuel R S0,
+    nwf NP = true -> relevance NP fuel = Some R ->
+    forall pi, nconformant NP (reduce_to_basis NP R S0) pi = nconformant NP S0 pi.
+Proof. exact basis_reduction_sound_lemma. Qed.
+Print Assumptions C30_basis_reduction_sound.
+
+Theorem C30_basis_reduction_same_answer :
+  forall NP fuel R S0,
+    nwf NP = true -> relevance NP fuel = Some R ->
+    ((exists pi, nconformant NP (reduce_to_basis NP R S0) pi = true) <-> (exists pi, nconformant NP S0 pi = true)).
+Proof. exact basis_reduction_exists. Qed.
+Print Assumptions C30_basis_reduction_same_answer.
+
+(* ------------------------------------------------------------------ non-vacuity *)
+(* one Boolean fluent g (id 0); action 0 sets it; goal g *)
+Definition ex_g : expr := EFluent 0%N [].
+Definition ex_P (acts : list (N * action)) : problem :=
+  {| p_objs := []; p_ifun := []; p_fluents := [{| fd_id := 0%N; fd_sig := []; fd_ty := FBool |}];
+     p_actions := acts; p_goals := [ex_g]; p_invs := [] |}.
+Definition ex_set : action :=
+  {| a_params := []; a_pre := [];
+     a_effs := [{| e_fl := 0%N; e_args := []; e_val := EBool true; e_cond := EBool true; e_kind := KAssign;
+                   e_vars := []; e_isbool := true |}] |}.
+Definition ex_K : list gfl := [(0%N, [])].
+Definition ex_false : fstate := [(0%N, [], VBool false)].
+
+Example C30_exists_conformant_plan_complete_nonvacuous :
+  exists_conformant_plan ex_K (ex_P []) [] [ex_false] 2 = Some false.
+Proof. vm_compute. reflexivity. Qed.
+
+Example C30_sound_check_correct_nonvacuous :
+  let back := [((0%N, []), Some (0%N, []))] in
+  sound_check_closed ex_K (ex_P [(0%N, ex_set)]) ex_K (ex_P [(0%N, ex_set)]) back [(0%N, [])] ex_false [ex_false; ex_false] 2 = true
+  /\ sound_check ex_K (ex_P [(0%N, ex_set)]) ex_K (ex_P [(0%N, ex_set)]) back [(0%N, [])] ex_false [ex_false; ex_false] 2 = true
+  /\ valid_plan false (ex_P [(0%N, ex_set)]) (fst_of ex_false) [(0%N, [])] = true.
+Proof. vm_compute. auto. Qed.
+
+Example C30_unsolvable_closed_correct_nonvacuous :
+  unsolvable_closed ex_K (ex_P []) [] ex_false 2 = true.
+Proof. vm_compute. reflexivity. Qed.
+
+(* atoms 0, 1; one action with the rule 0 -> 1; goal 1.  The state {0, 1} is dominated by {0} and by {} *)
+Definition ex_NP : nprob :=
+  {| np_atoms := [0%N; 1%N];
+     np_acts := [{| na_pre := []; na_rules := [{| r_cond := [(0%N, true)]; r_tgt := (1%N, true) |}] |}];
+     np_goal := [(1%N, true)] |}.
+
+Example C30_basis_reduction_sound_nonvacuous :
+  nwf ex_NP = true /\
+  exists R, relevance ex_NP 17 = Some R /\
+            basis_indices ex_NP R (map ns_of [[0%N; 1%N]; [0%N]; []]) = [2].
+Proof. split; [vm_compute; reflexivity|]. eexists. split; vm_compute; reflexivity. Qed.
